@@ -40,7 +40,9 @@ HasPctS(fmt) == HasS(Kinds(fmt), 115)
 OkRT7(e) == /\ e.ub = 0
             /\ HasPctS(e.fmt) => (e.ok = 1 /\ e.t2 = e.t)
             /\ (~HasPctS(e.fmt) /\ Lossless(e.fmt, e.cs, e.off)) => (e.ok = 1 /\ e.t2 = e.t /\ e.fs2 = e.fs)
-Allowed(e) == CASE e.e = "Format" -> OkFormat(e) [] e.e = "RT7" -> OkRT7(e) [] OTHER -> FALSE
+\* the judged calls repeated by several threads at once (format() is a const function of its arguments): the same texts
+OkConc(e) == e.mismatch = 0 /\ e.calls > 0
+Allowed(e) == CASE e.e = "Format" -> OkFormat(e) [] e.e = "RT7" -> OkRT7(e) [] e.e = "Conc" -> OkConc(e) [] OTHER -> FALSE
 Init == l = 1 /\ bad = 0
 Next == /\ l <= TraceLen
         /\ l' = l + 1
